@@ -77,7 +77,7 @@ spec("walker_of(h, u)", "ite(q_of(h, u) > 0, h._upper_bound_walker[dir_of(u.velo
 spec("prop_rate(h, u)", "ite(q_of(h, u) > 0, walker_of(h, u)._total_rate * q_of(h, u) * u.velocity[dir_of(u.velocity)], "
                         "walker_of(h, u)._total_rate * (q_of(h, u) * -1.0) * u.velocity[dir_of(u.velocity)])")
 spec("sampled(w, i, x)", "ite(x <= w._table[i][0].rate, w._table[i][0].item, w._table[i][1].item)")
-contract(H + "send_event_time", "C18", model="R", params={"in_state": "list[Node]"}, returns="tuple[Time,list[Cell]]",
+contract(H + "send_event_time", ["C18", "C10"], model="R", params={"in_state": "list[Node]"}, returns="tuple[Time,list[Cell]]",
          globals=["beta"],
          requires=["walkers_ok(self._upper_bound_walker)", "walkers_ok(self._lower_bound_walker)",
                    "self._cells is not None", "self._estimator is not None", "self._derivative_bounds is not None",
